@@ -218,7 +218,7 @@ fn leg_examples(cfg: &Config) -> Result<Results, String> {
 
 // ------------------------------------------------------------------------------------------
 // leg "tests": the #[test] functions of a crate directory
-fn build_test_db(cfg: &Config) -> RootDatabase {
+fn build_test_db(cfg: &Config, starknet: bool) -> RootDatabase {
     let mut b = RootDatabase::builder();
     let mut cfgset = CfgSet::from_iter([Cfg::name("test"), Cfg::kv("target", "test")]);
     if cfg.gas.is_none() {
@@ -227,7 +227,9 @@ fn build_test_db(cfg: &Config) -> RootDatabase {
     }
     b.with_cfg(cfgset);
     b.with_default_plugin_suite(test_plugin_suite());
-    b.with_default_plugin_suite(starknet_plugin_suite());
+    if starknet {
+        b.with_default_plugin_suite(starknet_plugin_suite());
+    }
     let enabled = |s: InliningStrategy| match Optimizations::enabled_with_default_movable_functions(s) {
         Optimizations::Enabled(c) => Optimizations::Enabled(c.with_skip_const_folding(cfg.skip_const_folding)),
         o => o,
@@ -254,15 +256,15 @@ fn gas_observing(name: &str) -> bool {
     name.contains("gas") || name.contains("Gas")
 }
 
-fn leg_tests(cfg: &Config, path: &str, prefix: &str) -> Result<Results, String> {
-    let mut db = build_test_db(cfg);
+fn leg_tests(cfg: &Config, path: &str, prefix: &str, starknet: bool) -> Result<Results, String> {
+    let mut db = build_test_db(cfg, starknet);
     let inputs = setup_project(&mut db, Path::new(path)).map_err(|e| format!("setup_project({path}): {e:?}"))?;
     let mut diag = String::new();
     let compiled = vcommon::catch(std::panic::AssertUnwindSafe(|| {
         compile_test_prepared_db(
             &db,
             TestsCompilationConfig {
-                starknet: true,
+                starknet,
                 add_statements_functions: false,
                 add_statements_code_locations: false,
                 contract_declarations: None,
@@ -277,7 +279,14 @@ fn leg_tests(cfg: &Config, path: &str, prefix: &str) -> Result<Results, String> 
         )
     }))
     .map_err(|e| format!("compiler panicked on {path} under {}: {e} at {}", cfg.name(), vcommon::last_panic_location()))?
-    .map_err(|e| format!("{path} does not compile under {}: {e:?}", cfg.name()))?;
+    .map_err(|e| {
+        let first: String = e.to_string().lines().next().unwrap_or("").to_string();
+        format!("{path} does not compile under {}: {first}", cfg.name())
+    });
+    let compiled = match compiled {
+        Ok(c) => c,
+        Err(e) => return Err(format!("{e}\n{}", diag.chars().take(1500).collect::<String>())),
+    };
     let meta = cfg.gas.map(|s| MetadataComputationConfig {
         function_set_costs: compiled.metadata.function_set_costs.clone(),
         linear_gas_solver: s == Solver::Linear,
@@ -344,11 +353,20 @@ fn leg_tests(cfg: &Config, path: &str, prefix: &str) -> Result<Results, String> 
 
 // ------------------------------------------------------------------------------------------
 fn run_leg<F: Fn(&Config, usize) -> Result<Results, String> + Sync>(configs: &[Config], f: F) -> Vec<LegRun> {
+    run_leg_n(configs, 12, f)
+}
+
+fn run_leg_n<F: Fn(&Config, usize) -> Result<Results, String> + Sync>(
+    configs: &[Config],
+    max_threads: usize,
+    f: F,
+) -> Vec<LegRun> {
     let out = std::sync::Mutex::new(vec![]);
     let next = std::sync::atomic::AtomicUsize::new(0);
     std::thread::scope(|sc| {
-        for _ in 0..configs.len().min(12) {
-            sc.spawn(|| loop {
+        for _ in 0..configs.len().min(max_threads) {
+            // the compiler recurses deeply on big crates: give the workers a large stack
+            std::thread::Builder::new().stack_size(512 << 20).spawn_scoped(sc, || loop {
                 let k = next.fetch_add(1, std::sync::atomic::Ordering::SeqCst);
                 if k >= configs.len() {
                     break;
@@ -359,7 +377,8 @@ fn run_leg<F: Fn(&Config, usize) -> Result<Results, String> + Sync>(configs: &[C
                     Err(e) => Err(format!("panicked: {e} at {}", vcommon::last_panic_location())),
                 };
                 out.lock().unwrap().push((k, LegRun { cfg: configs[k].clone(), results: r, secs: t.elapsed().as_secs_f64() }));
-            });
+            })
+            .expect("spawn");
         }
     });
     let mut v = out.into_inner().unwrap();
@@ -453,6 +472,17 @@ fn compare(leg: &str, runs: &[LegRun], failures: &mut Vec<serde_json::Value>, st
                 .collect()
         })
         .unwrap_or_default();
+    let mut panic_kinds: BTreeMap<String, usize> = BTreeMap::new();
+    if let Some(res) = runs.iter().find_map(|r| r.results.as_ref().ok()) {
+        for o in res.values() {
+            if let Obs::Panic(d) = o {
+                *panic_kinds.entry(d.first().map(crate::felt_text).unwrap_or_default()).or_default() += 1;
+            }
+        }
+    }
+    let mut pk: Vec<(String, usize)> = panic_kinds.into_iter().collect();
+    pk.sort_by(|a, b| b.1.cmp(&a.1));
+    pk.truncate(10);
     stats.insert(
         leg.to_string(),
         serde_json::json!({
@@ -463,7 +493,7 @@ fn compare(leg: &str, runs: &[LegRun], failures: &mut Vec<serde_json::Value>, st
                  "panics": r.results.as_ref().map(|x| x.values().filter(|o| matches!(o, Obs::Panic(_))).count()).unwrap_or(0),
                  "errors": r.results.as_ref().map(|x| x.values().filter(|o| matches!(o, Obs::Error(_))).count()).unwrap_or(0),
             })).collect::<Vec<_>>(),
-            "config_errors": errors, "nonlinear_solver_not_applicable": not_applicable, "run_errors": err_items,
+            "config_errors": errors, "nonlinear_solver_not_applicable": not_applicable, "run_errors": err_items, "panic_kinds_top": pk,
         }),
     );
 }
@@ -475,8 +505,11 @@ pub fn main_c05(out: &Path, tier: &str, seed: u64) {
     let mut stats = serde_json::Map::new();
     let mut samples = vec![];
 
+    let only = std::env::var("H01_C05_LEGS").unwrap_or_default();
+    let want = |l: &str| only.is_empty() || only.split(',').any(|x| x == l);
     // ---- generated programs ----
     let (n_progs, n_vecs) = if tier == "thorough" { (300, 12) } else { (60, 10) };
+    let n_progs = std::env::var("H01_C05_PROGS").ok().and_then(|s| s.parse().ok()).unwrap_or(n_progs);
     let mut gstats = crate::genp::Stats::default();
     let (progs, vectors, _) = crate::generate_crate(seed, 500, n_progs, n_vecs, &mut gstats);
     let gen_runs = run_leg(&configs, |cfg, k| leg_gen(out, cfg, k, &progs, &vectors));
@@ -518,27 +551,40 @@ pub fn main_c05(out: &Path, tier: &str, seed: u64) {
     }
 
     // ---- examples ----
-    let ex_runs = run_leg(&configs, |cfg, _| leg_examples(cfg));
-    compare("examples", &ex_runs, &mut failures, &mut stats);
-    if let Ok(r) = &ex_runs[0].results {
-        for (k, v) in r.iter().take(3) {
-            samples.push(serde_json::json!({"leg": "examples", "item": k.0, "args": cells_show(&k.1), "result": v.show()}));
+    if want("examples") {
+        let ex_runs = run_leg(&configs, |cfg, _| leg_examples(cfg));
+        compare("examples", &ex_runs, &mut failures, &mut stats);
+        if let Ok(r) = &ex_runs[0].results {
+            for (k, v) in r.iter().take(3) {
+                samples.push(serde_json::json!({"leg": "examples", "item": k.0, "args": cells_show(&k.1), "result": v.show()}));
+            }
         }
     }
 
     // ---- tests ----
     // tests need gas (syscalls, #[available_gas]): only the gas-enabled configurations
     let gas_cfgs: Vec<Config> = configs.iter().filter(|c| c.gas.is_some()).cloned().collect();
-    let t_runs = run_leg(&gas_cfgs, |cfg, _| leg_tests(cfg, "/repo/tests/bug_samples", "bug_samples:"));
-    compare("bug_samples", &t_runs, &mut failures, &mut stats);
-    if let Ok(r) = &t_runs[0].results {
-        for (k, v) in r.iter().take(2) {
-            samples.push(serde_json::json!({"leg": "bug_samples", "item": k.0, "result": v.show()}));
+    if want("bug_samples") {
+        let t_runs = run_leg_n(&gas_cfgs, 6, |cfg, _| leg_tests(cfg, "/repo/tests/bug_samples", "bug_samples:", true));
+        compare("bug_samples", &t_runs, &mut failures, &mut stats);
+        if let Ok(r) = &t_runs[0].results {
+            for (k, v) in r.iter().take(2) {
+                samples.push(serde_json::json!({"leg": "bug_samples", "item": k.0, "result": v.show()}));
+            }
         }
     }
-    if tier == "thorough" {
+    if tier == "thorough" && want("corelib") {
         // the core library's own tests need gas (#[available_gas]): only the gas configurations
-        let c_runs = run_leg(&gas_cfgs, |cfg, _| leg_tests(cfg, "/repo/corelib", "corelib:"));
+        // the core library with its tests is a big crate: few compilations at a time (memory)
+        // (four configurations: both solvers, optimisations off / default / aggressive inlining)
+        let c = |opt, skip, thr, gas| Config { opt, skip_const_folding: skip, match_threshold: thr, gas };
+        let core_cfgs = vec![
+            c(OptKind::Default, false, None, Some(Solver::Linear)),
+            c(OptKind::Disabled, false, None, Some(Solver::Linear)),
+            c(OptKind::Small(100_000), true, Some(2), Some(Solver::Linear)),
+            c(OptKind::Avoid, false, None, Some(Solver::NonLinear)),
+        ];
+        let c_runs = run_leg_n(&core_cfgs, 4, |cfg, _| leg_tests(cfg, "/repo/corelib", "corelib:", false));
         compare("corelib_tests", &c_runs, &mut failures, &mut stats);
     }
 
